@@ -140,6 +140,12 @@ func (s *Sim) taintOf(msg string) string {
 		}
 	}
 	for _, m := range reQueue.FindAllStringSubmatch(msg, -1) {
+		if m[1] == "root" {
+			// everything is below root, also applications that are gone by now
+			for id := range t {
+				apps[id] = true
+			}
+		}
 		for _, snap := range []*Snap{s.pre, s.post} {
 			if snap == nil {
 				continue
@@ -535,7 +541,21 @@ func (s *Sim) quiescent(op Op) {
 			}
 			m := s.shim.Allocs[sub.Key]
 			a := s.post.Apps[sub.AppID]
-			if m == nil || a == nil || m.Placeholder {
+			if m == nil || a == nil {
+				continue
+			}
+			if !m.WasBound {
+				// the shim released an ask it held as pending while a scheduling cycle of the same batch was binding
+				// it: known finding (the release removes the ask around the allocation, which stays on the node and in
+				// the queue without belonging to the application)
+				for _, nid := range sortedKeys(s.post.Nodes) {
+					if s.post.Nodes[nid].Allocs[sub.Key] != nil {
+						s.shim.taint(m.App, "release-races-allocation")
+						s.probe("release_races_allocation")
+					}
+				}
+			}
+			if m.Placeholder {
 				continue
 			}
 			linked := false
